@@ -133,12 +133,8 @@ func (c *FuncCtx) eval0(st *State, e ast.Expr) Value {
 		return c.evalSlice(st, n)
 	case *ast.SelectorExpr:
 		if sel, ok := c.info.Selections[n]; ok && sel.Kind() == types.FieldVal {
-			base := c.eval(st, n.X)
-			sv, ok := base.(*StructV)
-			if !ok {
-				panic(verr("field access on %T at %s", base, c.prog.pos(n)))
-			}
-			return c.field(st, sv, n.Sel.Name)
+			sv, name := c.fieldOwner(st, n, sel)
+			return c.field(st, sv, name)
 		}
 		panic(verr("unsupported selector %s at %s", exprString(n), c.prog.pos(n)))
 	case *ast.CompositeLit:
@@ -553,9 +549,42 @@ func (c *FuncCtx) assign(st *State, lhs ast.Expr, v Value) {
 		default:
 			panic(verr("unsupported indexed assignment to %T at %s", base, c.prog.pos(n)))
 		}
+	case *ast.SelectorExpr:
+		sel, ok := c.info.Selections[n]
+		if !ok || sel.Kind() != types.FieldVal {
+			panic(verr("unsupported assignment target %s at %s", exprString(lhs), c.prog.pos(lhs)))
+		}
+		sv, name := c.fieldOwner(st, n, sel)
+		if st.fieldOv == nil {
+			st.fieldOv = map[string]Value{}
+		}
+		st.fieldOv[fieldOvKey(sv, name)] = v
 	default:
 		panic(verr("unsupported assignment target %s at %s", exprString(lhs), c.prog.pos(lhs)))
 	}
+}
+
+// fieldOwner walks the (possibly promoted) selection x.f down to the struct that declares f.
+func (c *FuncCtx) fieldOwner(st *State, n *ast.SelectorExpr, sel *types.Selection) (*StructV, string) {
+	base := c.eval(st, n.X)
+	sv, ok := base.(*StructV)
+	if !ok {
+		panic(verr("field access on %T at %s", base, c.prog.pos(n)))
+	}
+	idx := sel.Index()
+	for d := 0; d < len(idx)-1; d++ {
+		stt, ok := sv.T.Underlying().(*types.Struct)
+		if !ok {
+			panic(verr("promoted field through non-struct at %s", c.prog.pos(n)))
+		}
+		v := c.field(st, sv, stt.Field(idx[d]).Name())
+		nsv, ok := v.(*StructV)
+		if !ok {
+			panic(verr("promoted field through %T at %s", v, c.prog.pos(n)))
+		}
+		sv = nsv
+	}
+	return sv, n.Sel.Name
 }
 
 // ---------- statements ----------
@@ -812,6 +841,39 @@ func (c *FuncCtx) merge(base *State, cond *Term, a, b *State, depth int) *State 
 	for _, hn := range sortedHeapNames(b.heaps) {
 		if _, ok := a.heaps[hn]; !ok {
 			m.heaps[hn] = Ite(cond, c.heap(a, hn), b.heaps[hn])
+		}
+	}
+	// struct fields assigned in a branch
+	keys := map[string]bool{}
+	for k := range a.fieldOv {
+		keys[k] = true
+	}
+	for k := range b.fieldOv {
+		keys[k] = true
+	}
+	for k := range keys {
+		va, oka := a.fieldOv[k]
+		vb, okb := b.fieldOv[k]
+		if oka && okb {
+			if m.fieldOv == nil {
+				m.fieldOv = map[string]Value{}
+			}
+			m.fieldOv[k] = c.mergeVal(m, cond, va, vb)
+			continue
+		}
+		panic(verr("a struct field (%s) is assigned in only one branch of a merged conditional: outside the subset", k))
+	}
+	// allocations of either branch stay known
+	seenAlloc := map[string]bool{}
+	for _, al := range m.allocs {
+		seenAlloc[al.Addr.Key()] = true
+	}
+	for _, lst := range [][]SliceV{a.allocs, b.allocs} {
+		for _, al := range lst {
+			if !seenAlloc[al.Addr.Key()] {
+				seenAlloc[al.Addr.Key()] = true
+				m.allocs = append(m.allocs, al)
+			}
 		}
 	}
 	return m
